@@ -161,7 +161,18 @@ def cases(draw):
                         for n in G.cells_names(ch):
                             cdef = G.find_cells(ch, n)[1]
                             queries.append([list(s.path) + [item, cn, item2], n, [0] * len(cdef.params)])
-    return {"ops": ops, "queries": queries[:60]}
+    # after the instances for both outer arguments exist: a NEW inner instance under the FIRST outer instance
+    revisit = []
+    for s in G.all_spaces():
+        if s.formula is not None:
+            np_ = len(s.formula["params"])
+            for cn, ch in s.children.items():
+                if ch.formula is not None:
+                    for n in G.cells_names(ch)[:2]:
+                        cdef = G.find_cells(ch, n)[1]
+                        revisit.append([list(s.path) + [{"a": [0] * np_}, cn, {"a": [2] * len(ch.formula["params"])}], n,
+                                        [0] * len(cdef.params)])
+    return {"ops": ops, "queries": queries[:60 - min(len(revisit), 6)] + revisit[:6]}
 
 
 def strategy(tier):
